@@ -185,6 +185,8 @@ module N :
 
   val ltb : n -> n -> bool
 
+  val max : n -> n -> n
+
   val pow : n -> n -> n
 
   val log2 : n -> n
@@ -1055,3 +1057,26 @@ type irfinal =
 val ir_loop : nat -> irprog -> state -> n -> irfinal
 
 val ir_run : nat -> irprog -> n list option list -> irfinal
+
+val dlen : n -> n
+
+val usub : n -> n -> n option
+
+val spaces : n -> n list
+
+val idx_width : (n * ucode) list -> n
+
+val loc_width : (n * ucode) list -> n
+
+val entry_tail : bool -> ucode -> n list option
+
+val listing_row : bool -> n list -> n -> n -> (n * ucode) -> n list option
+
+val listing_rows :
+  bool -> n list -> n -> n -> (n * ucode) list -> n list option
+
+val listing_text : bool -> n list -> (n * ucode) list -> n list option
+
+val enumerate_from : n -> 'a1 list -> (n * 'a1) list
+
+val check_listing : n list -> n list -> n list option
